@@ -26,6 +26,7 @@ RULE = (
     "interleaved with junk columns, with -c1/-p1/-c2/-p2 and --field name=N[:dtype] to match; oracle = C05's "
     "record model. (d) zoomify resolution specs (shared with C09). Non-trivial = >=2 options combined with a "
     "restricting region, or a non-monotone field layout. Distinct by sha1 of the canonical case."
+    ' Also: for generated 3-5-bin chromosomes ALL pairs of bin-aligned -r/-r2 ranges through cooler dump with and without --fill-lower (rows as multisets against the model); tabix-indexed pairs with the second mate outside the default columns (`cload tabix -c2 -p2`); a default-layout load after a --field load in the same process.'
 )
 ASSUMPTIONS = [
     "counts >= 1 (a stored zero is indistinguishable from an absent pixel after fill-lower)",
